@@ -276,6 +276,7 @@ fn chain_bases() -> Vec<Vec<Stmt>> {
 }
 
 fn run(sh: &mut Shard) {
+    confusable_texts(sh);
     let tier = sh.cfg.tier;
     for prog in chain_bases() {
         if !sh.mine() {
@@ -338,6 +339,38 @@ fn run(sh: &mut Shard) {
             }
             sh.running()
         });
+    }
+}
+
+/// Pairs of DIFFERENT texts that a shortcut could take for one (equal under the usual string hashes, anagrams,
+/// equal length, equal first / last 8, 16, 32 bytes, equal up to case, look-alike letters) as two literals of
+/// one program: each keeps its own content wherever it stands, and the two are not equal.
+fn confusable_texts(sh: &mut Shard) {
+    let mut pairs = super::c09::confusable_pairs();
+    for (a, b) in [("\u{a1}", "\u{c0}"), ("a b", "a  b"), ("", " "), ("a", "a "), ("ab", "ab\u{0}"), ("1", "1.0"), ("nee", "Nee"), ("\u{e9}", "e\u{301}"), ("az\u{e9}", "bY\u{e9}")] {
+        pairs.push((a.to_string(), b.to_string()));
+    }
+    for (t1, t2) in &pairs {
+        let (s1, s2) = (string(t1), string(t2));
+        let progs: Vec<Vec<Stmt>> = vec![
+            vec![es(array(vec![s1.clone(), s2.clone()]))],
+            vec![es(array(vec![s2.clone(), s1.clone(), s2.clone()]))],
+            vec![es(array(vec![infix(s1.clone(), Operator::Eq, s2.clone()), infix(s1.clone(), Operator::Neq, s2.clone()), infix(s2.clone(), Operator::Eq, s2.clone())]))],
+            vec![let_("a", s1.clone()), let_("b", s2.clone()), es(array(vec![id("a"), id("b"), infix(id("a"), Operator::Eq, id("b"))]))],
+            vec![es(func("f", &[], vec![es(s2.clone())])), es(array(vec![s1.clone(), calln("f", vec![]), s1.clone()]))],
+            vec![es(call(func("", &["p"], vec![es(array(vec![id("p"), s2.clone(), infix(id("p"), Operator::Eq, s2.clone())]))]), vec![s1.clone()]))],
+            vec![es(array(vec![calln("lengte", vec![s1.clone()]), calln("lengte", vec![s2.clone()])]))],
+            vec![print1(s1.clone()), print1(s2.clone()), es(s2.clone())],
+        ];
+        for prog in progs {
+            if !sh.mine() {
+                continue;
+            }
+            sh.begin(&|| printer::program(&prog));
+            sh.count("family:confusable-texts");
+            sh.nontrivial(&printer::program(&prog));
+            crate::common::differential(sh, "confusable-texts", &prog, opts());
+        }
     }
 }
 
